@@ -1096,6 +1096,6 @@ pub fn check() -> Check {
     )
     .assume("pool-internal rejections (DecimalOverflowError, ZeroPoolUnitsMinted, RedeemedZeroTokens, LargerContributionRequiredToMeetRatio, NonZeroPoolUnitSupplyButZeroReserves, mint limit) are accepted as outcomes of contribute/redeem: the property bounds what is paid, not when the pool must accept")
     .assume("with no pool units in circulation no ratio exists (documented: contribution accepted in full, first contributor gets leftover reserves); the ratio clause is asserted only with units in circulation, with 2e-36 slack for the 36-decimal ratio")
-    .part(Part::new("history", 1_500, 100_000, 2600, run))
+    .part(Part::new("history", 2_500, 150_000, 2600, run))
     .min_nontrivial_pct(8.0)
 }
